@@ -48,7 +48,9 @@ REQUIRED_TRIEBUILD = ["KV.C03TrieBuild.trie_write_frame", "KV.C03TrieBuild.key_o
                       "KV.C03TrieBuild.example_btok", "KV.C03TrieBuild.example_shape_ok", "KV.C03TrieBuild.example_build_refines",
                       "KV.C03TrieBuild.shape_ok", "KV.C03TrieBuild.ofTable_represents_general", "KV.C03TrieBuild.trie_build_refines_general",
                       "KV.C03TrieBuild.trie_build_represents_closed", "KV.C03TrieBuild.trie_end_to_end_closed",
-                      "KV.C03TrieBuild.blank_value_partial", "KV.C03TrieBuild.ex_enc", "KV.C03TrieBuild.example_end_to_end_closed", "KV.C03TrieBuild.example_end_to_end_null"]
+                      "KV.C03TrieBuild.blank_value_partial", "KV.C03TrieBuild.trie_build_represents", "KV.C03TrieBuild.trie_end_to_end",
+                      "KV.C03TrieBuild.trie_build_blanks_exact", "KV.C03TrieBuild.trie_scoreSeq", "KV.C03TrieBuild.trie_end_to_end_sentence", "KV.C03TrieBuild.p_enc", "KV.C03TrieBuild.p_arith",
+                      "KV.C03TrieBuild.example_end_to_end_pruned", "KV.C03TrieBuild.ex_enc", "KV.C03TrieBuild.example_end_to_end_closed", "KV.C03TrieBuild.example_end_to_end_null"]
 
 TYPE_NAMES = ["probing", "rest-probing", "trie", "quant-trie", "array-trie", "quant-array-trie"]
 
